@@ -80,10 +80,11 @@ const (
 	c09ParseResult
 	c09Proto
 	c09ParseResultNoAST
+	c09ParseResultWithInfo // a parse result with its AST whose descriptor already carries source info
 	c09nForms
 )
 
-var c09formNames = []string{"source", "AST", "ParseResult", "Proto", "ParseResult-without-AST"}
+var c09formNames = []string{"source", "AST", "ParseResult", "Proto", "ParseResult-without-AST", "ParseResult-with-source-info"}
 
 func c09compile(mode SourceInfoMode, res Resolver, names []string) (_ map[string]*descriptorpb.FileDescriptorProto, err error) {
 	defer func() {
@@ -146,6 +147,11 @@ func TestVerifC09Bounded(t *testing.T) {
 				}
 			}
 		}
+		std, err := c09compile(SourceInfoStandard, c09sourceResolver(set), names)
+		if err != nil {
+			fail("corpus", fmt.Sprintf("set %d does not compile from source: %v", si, err))
+			continue
+		}
 		for _, mode := range modes {
 			want, err := c09compile(mode, c09sourceResolver(set), names)
 			if err != nil {
@@ -158,7 +164,7 @@ func TestVerifC09Bounded(t *testing.T) {
 			}
 			for code := 0; code < nforms; code++ {
 				if !thorough && len(names) == 3 && (code*7+int(mode))%6 != 0 {
-					continue // quick tier: a sixth of the 125 assignments of the 3-file set per mode
+					continue // quick tier: a sixth of the 216 assignments of the 3-file set per mode
 				}
 				forms := map[string]int{}
 				c := code
@@ -186,11 +192,23 @@ func TestVerifC09Bounded(t *testing.T) {
 					switch forms[n] {
 					case c09AST:
 						asts[n] = fn
-					case c09ParseResult:
+					case c09ParseResult, c09ParseResultWithInfo:
 						pr, err := parser.ResultFromAST(fn, true, reporter.NewHandler(nil))
 						if err != nil {
 							ok = false
 							break
+						}
+						if forms[n] == c09ParseResultWithInfo {
+							// the source info that belongs to this mode (a compilation keeps source info
+							// that is already there); with SourceInfoNone, where it must be stripped, the
+							// standard one
+							info := want[n].GetSourceCodeInfo()
+							if info == nil {
+								info = std[n].GetSourceCodeInfo()
+							}
+							if info != nil {
+								pr.FileDescriptorProto().SourceCodeInfo = proto.Clone(info).(*descriptorpb.SourceCodeInfo)
+							}
 						}
 						prs[n] = pr
 						snaps[n] = proto.Clone(pr.FileDescriptorProto()).(*descriptorpb.FileDescriptorProto)
@@ -225,7 +243,7 @@ func TestVerifC09Bounded(t *testing.T) {
 					switch forms[name] {
 					case c09AST:
 						return SearchResult{AST: asts[name]}, nil
-					case c09ParseResult, c09ParseResultNoAST:
+					case c09ParseResult, c09ParseResultNoAST, c09ParseResultWithInfo:
 						return SearchResult{ParseResult: prs[name]}, nil
 					case c09Proto:
 						return SearchResult{Proto: protos[name]}, nil
@@ -351,5 +369,5 @@ func TestVerifC09Bounded(t *testing.T) {
 	for len(samples) < 3 {
 		samples = append(samples, "")
 	}
-	fmt.Printf("BOUNDED: {\"evaluations\":%d,\"distinct\":%d,\"rule\":\"3 accepted source sets (proto3 with comments/maps/oneofs/services; proto2 with custom options, extensions, groups, defaults over two files; a three-file chain with a public import and an editions file) x every assignment of {source, AST, ParseResult, Proto-with-its-source-info, ParseResult-without-AST} to the files (quick: a sixth of the 125 assignments of the three-file set) x all 8 source-info modes: every compiled FileDescriptorProto equals the all-source compilation of the same mode, and every supplied ParseResult/Proto equals its snapshot afterwards; plus %d rounds of 6 concurrent compilations from shared objects (thorough: under the race detector); distinct_nontrivial counts the distinct (set, mode, assignment) cases in which at least one file is not supplied as source\",\"exhaustive\":true,\"bound\":\"3 fixed source sets; all forms x all modes\",\"samples\":[%q,%q,%q]}\n", evals, nontrivial, rounds, samples[0], samples[1], samples[2])
+	fmt.Printf("BOUNDED: {\"evaluations\":%d,\"distinct\":%d,\"rule\":\"3 accepted source sets (proto3 with comments/maps/oneofs/services; proto2 with custom options, extensions, groups, defaults over two files; a three-file chain with a public import and an editions file) x every assignment of {source, AST, ParseResult, Proto-with-its-source-info, ParseResult-without-AST, ParseResult-with-AST-and-standard-source-info} to the files (quick: a sixth of the 216 assignments of the three-file set) x all 8 source-info modes: every compiled FileDescriptorProto equals the all-source compilation of the same mode, and every supplied ParseResult/Proto equals its snapshot afterwards; plus %d rounds of 6 concurrent compilations from shared objects (thorough: under the race detector); distinct_nontrivial counts the distinct (set, mode, assignment) cases in which at least one file is not supplied as source\",\"exhaustive\":true,\"bound\":\"3 fixed source sets; all forms x all modes\",\"samples\":[%q,%q,%q]}\n", evals, nontrivial, rounds, samples[0], samples[1], samples[2])
 }
